@@ -190,4 +190,19 @@ CHECKS = {
         note=_NOTE + " Primality of numbers >= 2^31 rests on isProbablePrime(128); the Gordon structure of bn_gen_prime_stron is "
              "not observable (bit length and primality are); tnaf/rtnaf/frb/sac recodings are not driven here.",
         technique="TLC model checking of transcribed recoding/gcd/reduction algorithms + TLC trace validation of recorded bn calls against the number-theoretic spec"),
+    "C13": dict(
+        text="The documented hash-to-curve constructions (expand_message_xmd by lib/Xmd; simplified SWU, Shallue-van de Woestijne, "
+             "isogeny by Horner, SwiftEC, try-and-increment, Elligator 2; the sgn0 rule; addition and cofactor clearing over "
+             "lib/Curve, CurveX, Edwards, BinCurve) are written in TLA+ over BigNat with the library's constants as parameters "
+             "checked by their defining relations (RFC 9380 criteria, c[] formulas, sqrt(-3), the isogeny maps, the RFC J.9.1 "
+             "vector for BLS12381G1). model/HashToCurve checks the SSWU/SvdW/isogeny programs as coded against RFC 9380 for every "
+             "curve over F_5..F_23, every admissible Z, every u (incl. u = 0 and the exceptional u); model/SqrtMod against "
+             "enumeration. Every recorded ep_map*/ep_map_rnd/ep2_map*/eb_map/ed_map call (messages of length 0..300 across hash "
+             "block boundaries, uniform strings decoding to u = 0, the denominator zeros, multiples of p, too short/long) on "
+             "every selectable curve (std256 incl. SWIFT/BASIC builds; thorough: BLS12-381 G1/G2, ed255) is validated: point = "
+             "construction, on curve, [n]R = O, and identical on repetition after unrelated calls.",
+        ref="§4 C13",
+        note=_NOTE + " ep2_map_swift is validity-only; try-and-increment maps accept either root (sign undocumented). DST handling "
+             "(6-byte 'RELIC\\0' vs 5-byte) and the upward Z search are documented parameters, not judged against the RFC suites.",
+        technique="TLC model checking of transcribed map programs + TLC trace validation of recorded map calls against a TLA+ evaluation of the documented construction"),
 }
